@@ -1,7 +1,6 @@
 package disk
 
 import (
-
 	"github.com/diskfs/go-diskfs/backend"
 	"github.com/diskfs/go-diskfs/backend/file"
 	"github.com/diskfs/go-diskfs/filesystem"
@@ -17,9 +16,10 @@ import (
 // with the flag clear the same call does write (witness that the harness is not vacuous).
 //
 // Backends (case split, they are different object graphs):
-//   c11Plain - a backend.Storage whose own Writable() fails       ("a backend whose Writable() fails")
-//   c11File  - file.New(image, readOnly)                          ("file.New(readOnly=true)"; also what diskfs.Open builds)
-//   c11Sub   - backend.Sub(file.New(image, readOnly), off, size)  (the partition view filesystems are given)
+//
+//	c11Plain - a backend.Storage whose own Writable() fails       ("a backend whose Writable() fails")
+//	c11File  - file.New(image, readOnly)                          ("file.New(readOnly=true)"; also what diskfs.Open builds)
+//	c11Sub   - backend.Sub(file.New(image, readOnly), off, size)  (the partition view filesystems are given)
 const (
 	c11Plain = iota
 	c11File
@@ -107,8 +107,8 @@ func VP_C11_disk_partition_mbr_plain() { c11Partition(c11Plain, false) }
 func VP_C11_disk_partition_mbr_file()  { c11Partition(c11File, false) }
 func VP_C11_disk_partition_mbr_sub()   { c11Partition(c11Sub, false) }
 func VP_C11_disk_partition_gpt_plain() { c11Partition(c11Plain, true) }
-func VP_C11_disk_partition_gpt_file()  { c11Partition(c11File, true) }
-func VP_C11_disk_partition_gpt_sub() {
+func VP_C11_disk_partition_gpt_file() {
+	c11Partition(c11File, true)
 	if vp.Thorough() {
 		c11Partition(c11Sub, true)
 	}
@@ -182,15 +182,16 @@ func c11CreateFS(kind int, t filesystem.Type, lo, hi int64) {
 func c11Fat12Hi() int64 { return int64(vp.Bound("fat12.maxsize", 8<<20, 129<<20)) }
 func c11Fat16Hi() int64 { return int64(vp.Bound("fat16.maxsize", 64<<20, 2049<<20)) }
 
-func VP_C11_disk_createfs_fat12_file()  { c11CreateFS(c11File, filesystem.TypeFat12, 0, c11Fat12Hi()) }
-func VP_C11_disk_createfs_fat12_plain() { c11CreateFS(c11Plain, filesystem.TypeFat12, 0, c11Fat12Hi()) }
-func VP_C11_disk_createfs_fat12_sub() {
+// The thorough tier adds the remaining backend kinds to the same harness (a second run after the first).
+func VP_C11_disk_createfs_fat12_file() {
+	c11CreateFS(c11File, filesystem.TypeFat12, 0, c11Fat12Hi())
 	if vp.Thorough() {
 		c11CreateFS(c11Sub, filesystem.TypeFat12, 0, c11Fat12Hi())
 	}
 }
-func VP_C11_disk_createfs_fat16_file() { c11CreateFS(c11File, filesystem.TypeFat16, 0, c11Fat16Hi()) }
-func VP_C11_disk_createfs_fat16_plain() {
+func VP_C11_disk_createfs_fat12_plain() { c11CreateFS(c11Plain, filesystem.TypeFat12, 0, c11Fat12Hi()) }
+func VP_C11_disk_createfs_fat16_file() {
+	c11CreateFS(c11File, filesystem.TypeFat16, 0, c11Fat16Hi())
 	if vp.Thorough() {
 		c11CreateFS(c11Plain, filesystem.TypeFat16, 0, c11Fat16Hi())
 	}
@@ -198,13 +199,15 @@ func VP_C11_disk_createfs_fat16_plain() {
 func VP_C11_disk_createfs_fat32_file()  { c11CreateFS(c11File, filesystem.TypeFat32, 0, 1<<36) }
 func VP_C11_disk_createfs_fat32_plain() { c11CreateFS(c11Plain, filesystem.TypeFat32, 0, 1<<36) }
 func VP_C11_disk_createfs_fat32_sub()   { c11CreateFS(c11Sub, filesystem.TypeFat32, 0, 1<<36) }
-func VP_C11_disk_createfs_ext4_file()   { c11CreateFS(c11File, filesystem.TypeExt4, 16<<20, 16<<20) } // mkfs.ext4 arithmetic is float-based: one concrete size
-func VP_C11_disk_createfs_ext4_plain() {
+
+// mkfs.ext4 arithmetic is float-based: one concrete size per run
+func VP_C11_disk_createfs_ext4_file() {
+	c11CreateFS(c11File, filesystem.TypeExt4, 16<<20, 16<<20)
 	if vp.Thorough() {
 		c11CreateFS(c11Plain, filesystem.TypeExt4, 64<<20, 64<<20)
 	}
 }
-func VP_C11_disk_createfs_unknown()     { c11CreateFS(c11File, filesystem.Type(99), 0, 1<<36) }
+func VP_C11_disk_createfs_unknown() { c11CreateFS(c11File, filesystem.Type(99), 0, 1<<36) }
 
 // c11ReadImg: image for the reading entry points: sector 0 is an MBR with one partition of
 // arbitrary type/start/size (signature 55 AA), everything else is zero; ANY WriteAt is a violation,
